@@ -270,6 +270,11 @@ func Main(m *testing.M, id, rule string, assumptions []string) {
 	st.assumptions = assumptions
 	st.start = time.Now()
 	loadKnown(id)
+	if !watchdogOn {
+		// a case that never returns (a lock never released, an endless loop) is
+		// a violation in every check, not a run that hangs until the test timeout
+		Watchdog(120 * time.Second)
+	}
 	_ = flag.Set("rapid.nofailfile", "true")
 	code := m.Run()
 	flush(code)
